@@ -143,10 +143,12 @@ PROPS.update({
     "C11": {
         "modules": _DISPATCH_MODS,
         "contracts": [_HR],
+        "groups": [{"modules": ["specs.socket_model", "specs.pystruct", "specs.seqdict", "specs.opaque", "contracts.batch_client"],
+                    "contracts": ["Pyro5.client.BatchProxy.__call__", "Pyro5.client.BatchProxy._pyroInvoke"]}],
         "harness": "replay/dispatch.py",
         "explanation": "batch branch of handleRequest, loop invariant over the calls made so far: one result and one invocation per call (ghost counters), each call "
                        "goes through the same exposure gate and the same invocation as a single call; the loop stops at the first failing call whose wrapper is the last "
-                       "result; a gate refusal ends the whole request before the refused call runs; a oneway batch sends nothing.",
+                       "result; a gate refusal ends the whole request before the refused call runs; a oneway batch sends nothing.  Client side (second contract group): BatchProxy.__call__ / _pyroInvoke send exactly one <batch> request carrying the queue object itself with the caller's oneway choice, hand back the generator over that request's results (nothing for oneway) and leave a new empty queue behind, so a re-used batch proxy never repeats calls.",
         "assumptions": _COMMON_ASSUME + ["the client side (BatchProxy collecting calls in order, replaying results, re-raising the wrapper) and `same effect as sequential calls` on a "
                                          "stateful object are covered by the bounded native harness only"],
     },
@@ -155,10 +157,10 @@ PROPS.update({
         "contracts": [_HR],
         "groups": [{"modules": ["specs.socket_model", "specs.pystruct", "specs.seqdict", "specs.opaque", "specs.daemon_model", "contracts.registry"],
                     "contracts": ["Pyro5.server.Daemon.register", "Pyro5.server.Daemon.unregister", "Pyro5.server.Daemon.uriFor#body",
-                                  "Pyro5.server._pyro_obj_to_auto_proxy"]}],
+                                  "Pyro5.server._pyro_obj_to_auto_proxy", "Pyro5.server.Daemon._unregister_collected"]}],
         "harness": "replay/dispatch.py",
         "explanation": "dispatch part: the object a request reaches is the registry entry of the request's object id (weak reference unpacked, class instantiated via "
-                       "_getInstance); 'unknown object' is answered only when that entry is None; every invoked member was resolved on that object.  Registry operations (own contract group, stated for one arbitrary id = every id): register puts exactly the new id -> this object (a weak reference to it when weak) into the table, leaves every other id alone, sets _pyroId/_pyroDaemon on the object, takes over an id already in use or re-registers a currently registered object only when forced, never registers a class weakly, refuses (DaemonError / TypeError) without touching the table; unregister (by id or by object) removes exactly that id, never the daemon's own, strips the object's id attributes; uriFor hands out a uri for an object only while its id is registered; the auto-proxy hook replaces an object by one proxy made by its daemon exactly when its id currently designates it (or its class) in the registry and otherwise lets it travel by value.",
+                       "_getInstance); 'unknown object' is answered only when that entry is None; every invoked member was resolved on that object.  Registry operations (own contract group, stated for one arbitrary id = every id): register puts exactly the new id -> this object (a weak reference to it when weak) into the table, leaves every other id alone, sets _pyroId/_pyroDaemon on the object, takes over an id already in use or re-registers a currently registered object only when forced, never registers a class weakly, refuses (DaemonError / TypeError) without touching the table; unregister (by id or by object) removes exactly that id, never the daemon's own, strips the object's id attributes; uriFor hands out a uri for an object only while its id is registered; the auto-proxy hook replaces an object by one proxy made by its daemon exactly when its id currently designates it (or its class) in the registry and otherwise lets it travel by value; the collection callback of a weak registration (_unregister_collected, bound to the id and to the very weak reference stored) forgets the id exactly while it still holds that reference.",
         "assumptions": _COMMON_ASSUME + ["registry contracts: the registered object is a plain Python object (setting / deleting its Pyro attributes runs no user code), sequential "
                                          "semantics, proxyFor and the type-replacement registration with the serializers as declared; whole histories (falsy, weak, re-used "
                                          "ids, garbage collection) only in the bounded native harness", "GC timing of weak references"],
